@@ -1,6 +1,6 @@
 (* Props/C09.v — C09: the chunk codec over a faulty storage (src/extsort/chunk.rs: dump, ExternalChunk::next).
    Only statements, closed by [exact]; proofs live in ChunkProofs.v. *)
-From BedV Require Import Base AlgebraModel ExtSortModel ChunkProofs BufModel BufProofs.
+From BedV Require Import Base AlgebraModel ExtSortModel ChunkProofs BufModel BufProofs CutProofs.
 
 (* bincode DefaultOptions on Vec<u8>: deserialize (serialize v) = v *)
 Theorem C09_codec : forall v, N.of_nat (length v) < 2 ^ 64 -> de_blob (ser_blob v) = Some v.
@@ -145,3 +145,63 @@ Proof.
   - vm_compute. reflexivity.
 Qed.
 Print Assumptions C09_buffered_nonvacuous.
+
+(* ---- the chunk reader over a storage that LOST ITS TAIL (only the first n bytes of the frames are left), fault-free reads ---- *)
+
+(* j = the number of frames completely inside the first n bytes.  The reader yields exactly those j records,
+   unaltered; when the cut falls on a record boundary or inside the next 8-byte length header the chunk then
+   simply ends (the format has no way to tell); when it falls inside a payload an I/O error is reported. *)
+Theorem C09_truncated_storage : forall items n, Forall blob_ok items -> (n <= length (frames items))%nat ->
+  exists j, (j <= length items)%nat /\
+    (length (frames (firstn j items)) <= n)%nat /\
+    (forall v, nth_error items j = Some v -> (n < length (frames (firstn j items)) + length (frame v))%nat) /\
+    ( ((n - length (frames (firstn j items)) < 8)%nat /\
+       chunk_read (firstn n (frames items)) [] = map CItem (firstn j items))
+      \/ ((8 <= n - length (frames (firstn j items)))%nat /\
+          chunk_read (firstn n (frames items)) [] = map CItem (firstn j items) ++ [CIoErr]) ).
+Proof. exact read_truncated. Qed.
+Print Assumptions C09_truncated_storage.
+
+(* the same through the BufReader that ExternalChunk::new puts in front of the file *)
+Theorem C09_truncated_storage_buffered : forall items n, Forall blob_ok items -> (n <= length (frames items))%nat ->
+  exists j, (j <= length items)%nat /\
+    (length (frames (firstn j items)) <= n)%nat /\
+    (forall v, nth_error items j = Some v -> (n < length (frames (firstn j items)) + length (frame v))%nat) /\
+    ( ((n - length (frames (firstn j items)) < 8)%nat /\
+       chunk_read_buffered (firstn n (frames items)) [] = map CItem (firstn j items))
+      \/ ((8 <= n - length (frames (firstn j items)))%nat /\
+          chunk_read_buffered (firstn n (frames items)) [] = map CItem (firstn j items) ++ [CIoErr]) ).
+Proof. exact read_truncated_buffered. Qed.
+Print Assumptions C09_truncated_storage_buffered.
+
+(* never an altered or partial record: every record the reader yields was written *)
+Theorem C09_truncated_never_alters : forall items n, Forall blob_ok items -> (n <= length (frames items))%nat ->
+  forall v, In (CItem v) (chunk_read (firstn n (frames items)) []) -> In v items.
+Proof. exact truncated_never_alters. Qed.
+Print Assumptions C09_truncated_never_alters.
+
+Theorem C09_truncated_never_alters_buffered : forall items n,
+  Forall blob_ok items -> (n <= length (frames items))%nat ->
+  forall v, In (CItem v) (chunk_read_buffered (firstn n (frames items)) []) -> In v items.
+Proof. exact truncated_never_alters_buffered. Qed.
+Print Assumptions C09_truncated_never_alters_buffered.
+
+(* non-vacuity: three records (frames of 9, 12 and 311 bytes = 332 bytes).  One byte cut off (inside the last
+   payload): two records, then an I/O error.  Cut after exactly two frames (21 bytes), or 3 bytes into the third
+   length header (24 bytes): two records and a silent end.  Nothing cut: all three records. *)
+Example C09_truncated_nonvacuous :
+  let items := [[]; [1; 2; 3]; repeat 7 300%nat] in
+  Forall blob_ok items /\ length (frames items) = 332%nat /\
+  chunk_read (firstn 331 (frames items)) [] = [CItem []; CItem [1; 2; 3]; CIoErr] /\
+  chunk_read (firstn 21 (frames items)) [] = [CItem []; CItem [1; 2; 3]] /\
+  chunk_read (firstn 24 (frames items)) [] = [CItem []; CItem [1; 2; 3]] /\
+  chunk_read (firstn 332 (frames items)) [] = map CItem items /\
+  chunk_read_buffered (firstn 331 (frames items)) [] = [CItem []; CItem [1; 2; 3]; CIoErr] /\
+  chunk_read_buffered (firstn 21 (frames items)) [] = [CItem []; CItem [1; 2; 3]] /\
+  chunk_read_buffered (firstn 24 (frames items)) [] = [CItem []; CItem [1; 2; 3]] /\
+  chunk_read_buffered (firstn 332 (frames items)) [] = map CItem items.
+Proof.
+  cbv zeta. split; [repeat constructor; vm_compute; reflexivity|].
+  repeat split; vm_compute; reflexivity.
+Qed.
+Print Assumptions C09_truncated_nonvacuous.
